@@ -185,7 +185,14 @@ public:
          and is_nothrow_constructible_v<detail::variant_alternative_selector_t<T, Ts...>, T>)
     ) -> variant&
     {
-        emplace<detail::variant_alternative_selector_t<T, Ts...>>(etl::forward<T>(t));
+        using alternative_t        = detail::variant_alternative_selector_t<T, Ts...>;
+        constexpr auto alternative = index_v<meta::index_of_v<alternative_t, meta::list<Ts...>>>;
+        if (index() == alternative.value) {
+            // Same alternative: assign through. `t` may refer to the contained value.
+            (*this)[alternative] = etl::forward<T>(t);
+        } else {
+            emplace<alternative_t>(etl::forward<T>(t));
+        }
         return *this;
     }
 
